@@ -22,7 +22,13 @@ func c02Opts(thorough bool) opCaseOpts {
 		}
 		return opCaseOpts{shapes: out, maxIndexRank: 4, concatSizes: []int{1, 2, 3}, concat3: true}
 	}
-	return opCaseOpts{shapes: enum.Shapes(3, []int{1, 2, 3}), maxIndexRank: 3, concatSizes: []int{1, 2}, concat3: true}
+	quick := enum.Shapes(3, []int{1, 2, 3})
+	for _, s := range enum.Shapes(4, []int{1, 2}) {
+		if len(s) == 4 {
+			quick = append(quick, s)
+		}
+	}
+	return opCaseOpts{shapes: quick, maxIndexRank: 4, concatSizes: []int{1, 2}, concat3: true}
 }
 
 func checkC02(c *core.Ctx) {
